@@ -41,6 +41,9 @@ func (propC08) ID() string { return "C08" }
 func (propC08) Gen(r *Rng, tier string) *World {
 	k := DrawKnobs(r)
 	k.ConstHeavy = r.P(0.6)
+	if k.Budget > 0 { // program size is not what this property is about; keep worlds small and many
+		k.Budget, k.MaxDepth, k.MaxFan, k.PLeaf = 0, 5, 4, 0.2
+	}
 	k.NOps = r.Range(1, 4)
 	k.Stateless = 0.7
 	k.FailOp = r.P(0.3)
